@@ -1,8 +1,7 @@
 /-
-C02, execution half — F2 with `break`/`continue`: the `for` form, the induction, the top level.
+C02, execution half — F2 with `break`/`continue`: the `for` form, the expression step.
 -/
 import ZygoVerif.Proofs.SimF2Brk
-import ZygoVerif.Proofs.SimF2Top
 set_option linter.unusedSimpArgs false
 set_option linter.unusedVariables false
 namespace ZygoVerif.Sim
@@ -10,10 +9,10 @@ open ZygoVerif.Core ZygoVerif.VM
 
 /-- **A `for` loop whose body may `break`/`continue`** (this loop or an enclosing one). -/
 theorem xclaimE_for {n : Nat} (hFE : FClaimE n) (hF : XClaimF n) {ls : List (Option String)} {label : Option String}
-    {init test incr : Expr} {body : List Expr} (hinit : Ff true "" init = true) (htest : Ff true "" test = true)
-    (hincr : Ff true "" incr = true) (hbody : FxList (label :: ls) body = true) (isFn : Nat → Bool) (c : Ctx) (gs : GS)
+    {init test incr : Expr} {body : List Expr} (hinit : Ff true self init = true) (htest : Ff true self test = true)
+    (hincr : Ff true self incr = true) (hbody : FxList (label :: ls) self body = true) (isFn : Nat → Bool) (c : Ctx) (gs : GS)
     (r : (List Instr × Bool) × GS)
-    (hc : (compile isFn c (.for_ label init test incr body)).run gs = .ok r) (hfn : c.funcname = "")
+    (hc : (compile isFn c (.for_ label init test incr body)).run gs = .ok r) (hfn : FnameOk self c)
     (Γ : List LCtx) (hls : Γ.map (·.label) = ls) (hg : GsOk Γ gs)
     (m : Nat → Nat) (s : St) (rs : Ref.St) (env : Nat) (pre post : List Instr) (hrel : RelF m s rs env)
     (hgen : GenOk gs r.2 s) (hctx : CtxF Γ c.scopes s rs) (hlf : LoopsFinal r.2 s)
@@ -43,8 +42,8 @@ theorem xclaimE_for {n : Nat} (hFE : FClaimE n) (hF : XClaimF n) {ls : List (Opt
   injection hc with hc
   subst hc
   simp only at hseg hgen hlf hlo ⊢
-  have hfn' : ({ c with tail := false, scopes := c.scopes + 1 } : Ctx).funcname = "" := hfn
-  have hfnok : FnameOk "" { c with tail := false, scopes := c.scopes + 1 } := Or.inr (Or.inl hfn)
+  have hfn' : FnameOk self { c with tail := false, scopes := c.scopes + 1 } := hfn
+  have hfnok : FnameOk self { c with tail := false, scopes := c.scopes + 1 } := hfn
   -- the loop's context record
   generalize hγ : forCtx gs.loops.length label c.scopes pre.length
     (pre.length + ri.1.length + rsn.1.length + rt.1.length + rb.1.length + 14) (pre.length + ri.1.length + 6)
@@ -71,7 +70,8 @@ theorem xclaimE_for {n : Nat} (hFE : FClaimE n) (hF : XClaimF n) {ls : List (Opt
   have lsn : g4.loops.length ≤ g5.loops.length := tots.2.1
   simp only [forDone_len] at hlo
   -- the templates of the four parts
-  have hg0 : GenOk (forGs gs c label) g5 s := ⟨hgen.live, hgen.main, hgen.len, hgen.tmpl⟩
+  have hg0 : GenOk (forGs gs c label) g5 s := ⟨hgen.live, hgen.main, hgen.len, hgen.tmpl,
+    hgen.loops.for_body (((totb.1.trans toti.1).trans tott.1).trans tots.1) (KeepFns.refl g5)⟩
   have hgb : GenOk (forGs gs c label) g2 s := hg0.first ((toti.1.trans tott.1).trans tots.1)
   have hgi : GenOk g2 g3 s := (hg0.rest totb.1).first (tott.1.trans tots.1)
   have hgt : GenOk g3 g4 s := (hg0.rest (totb.1.trans toti.1)).first tots.1
@@ -157,14 +157,15 @@ theorem xclaimE_for {n : Nat} (hFE : FClaimE n) (hF : XClaimF n) {ls : List (Opt
   have hfr24 : FrameF s2 s4 := by subst hs4; exact (FrameF.jmp _ _ _).trans (FrameF.jmp _ _ _)
   have hfn4 : fnOf s4 s4.curfunc = fnOf s s.curfunc := by subst hs4; exact hfn2
   have hfns4 : s4.fns = s.fns := by subst hs4; exact hfns2
-  have hk04 : FnsKeep s s4 := FnsKeep.of_fns_eq hfns4
+  have hk04 : FnsKeep s s4 := FnsKeep.of_fns_eq hfns4 ⟨Nat.le_trans hfr2.loopsLen hfr24.loopsLen, fun id hid =>
+    (hfr24.loops id (Nat.lt_of_lt_of_le hid hfr2.loopsLen)).trans (hfr2.loops id hid)⟩
   have hreach4 : ReachX s s4 := ((r0.trans r1).trans r2).trans r3
   have hnl04 : FrameNL s s4 := (FrameNL.pushScope s).trans (hfr2.trans hfr24).toNL
   -- the initialiser
   have hseg4 : Seg s4 (pre ++ fHd gs.loops.length) ri.1 (fMid gs.loops.length rsn.1 ++ rsn.1
       ++ [.popUntilMark gs.loops.length, .label] ++ rt.1 ++ fBr rb.1 ++ rb.1
       ++ fTl gs.loops.length rsn.1 rt.1 rb.1 ++ post) := hin4.seg (by simp [forFull]) (by rw [hpc4]; simp)
-  have ih4 := hFE true "" init hinit isFn _ g2 (ri, g3) hi hfnok m s4 _ _ _ _ rel4 (fun _ => hgi.mono hk04) hseg4
+  have ih4 := hFE true self init hinit isFn _ g2 (ri, g3) hi hfnok m s4 _ _ _ _ rel4 (fun _ => hgi.mono hk04) hseg4
   have hs4' := seg_pumF hin4 (P := pre ++ fHd gs.loops.length) (c := ri.1)
     (Q := [.jump ((rsn.1.length : Int) + 3), .label] ++ rsn.1 ++ [.popUntilMark gs.loops.length, .label] ++ rt.1
       ++ fBr rb.1 ++ rb.1 ++ fTl gs.loops.length rsn.1 rt.1 rb.1 ++ post) (by simp [forFull]) (by rw [hpc4]; simp) hd4 ih4
@@ -222,7 +223,7 @@ theorem xclaimE_for {n : Nat} (hFE : FClaimE n) (hF : XClaimF n) {ls : List (Opt
     have hk07 : FnsKeep s s7 := by
       obtain ⟨k0, _, hfc0⟩ := hrel.ctx
       exact FnsKeep.of_nl hnl07 (fns_ne_nil_of_lt hfc0.lt)
-    have hloop := hF ls label test incr body htest hincr hbody isFn _ hfn' _ rb g2 _ rt g4 _ rsn g5 hb ht hs Γ γ₀ hls hγlab hg'
+    have hloop := hF ls self label test incr body htest hincr hbody isFn _ hfn' _ rb g2 _ rt g4 _ rsn g5 hb ht hs Γ γ₀ hls hγlab hg'
       ri.1 pre post m6 s7 rs2 (by rw [hγid]; exact hin7) hpc7 (by rw [hγid, hγD]; exact hd7) (by rw [hγlin]; exact hlin7)
       (by rw [hγfr]; exact rel7) ⟨hgb.mono hk07, hgt.mono hk07, hgs.mono hk07⟩ hctx7
       ⟨Nat.le_trans hlf2.1 hnl07.loopsLen, fun id h1 h2 => by
@@ -283,7 +284,7 @@ theorem xclaimE_for {n : Nat} (hFE : FClaimE n) (hF : XClaimF n) {ls : List (Opt
       have hm08 : MExt s m m8 := hm06.trans hm8 hnl07.fnsLen
       refine ⟨_, m8, .nil, ((((hreach7.trans r8).trans r10).trans r11).trans r12), ⟨hfn10, ?_, ?_⟩, rfl,
         (hrel.back (s₅ := s10.popScope) rel10 rfl rfl rfl rfl (by show s10.linear.tail = _; rw [hlin10]; rfl) hfr_in.curfunc
-          hflags hfl hfo hext).jmp _ _, hm08, hext07.trans ext8, hframe.trans (FrameF.jmp _ _ _),
+          hflags hfl hfo hext ⟨hfr_in.loopsLen, hfr_in.loops⟩).jmp _ _, hm08, hext07.trans ext8, hframe.trans (FrameF.jmp _ _ _),
         vOk_lit .nil (fun _ _ _ => rfl)⟩
       · show s10.pc + 1 + 1 = _
         rw [hpc10, hpc, hlen]; push_cast; omega
@@ -314,10 +315,10 @@ theorem LoopsFinal.nl {gs' : GS} {s s' : St} (h : LoopsFinal gs' s) (hf : FrameN
 
 theorem xclaimE_succ {n : Nat} (hFE1 : FClaimE (n + 1)) (hFE : FClaimE n) (hL : FClaimL n) (hP : FClaimP n)
     (hE : XClaimE n) (hB : XClaimB n) (hC : XClaimC n) (hN : XClaimN n) (hF : XClaimF n) : XClaimE (n + 1) := by
-  intro ls e he isFn c gs r hc hfn Γ hls hg m s rs env pre post hrel hgen hctx hlf hlo hseg
-  have hfnok : FnameOk "" c := Or.inr (Or.inl hfn)
-  have hff : Ff true "" e = true → SimX r.1.1 Γ m s rs env (Ref.eval (n + 1) e env rs) := fun h =>
-    (hFE1 true "" e h isFn c gs r hc hfnok m s rs env pre post hrel (fun _ => hgen) hseg).toX
+  intro ls self e he isFn c gs r hc hfn Γ hls hg m s rs env pre post hrel hgen hctx hlf hlo hseg
+  have hfnok : FnameOk self c := hfn
+  have hff : Ff true self e = true → SimX r.1.1 Γ m s rs env (Ref.eval (n + 1) e env rs) := fun h =>
+    (hFE1 true self e h isFn c gs r hc hfnok m s rs env pre post hrel (fun _ => hgen) hseg).toX
   cases e with
   | break_ l =>
     rw [Fx] at he
@@ -340,7 +341,7 @@ theorem xclaimE_succ {n : Nat} (hFE1 : FClaimE (n + 1)) (hFE : FClaimE n) (hL : 
     | cons e0 es0 =>
       rw [compile] at hc
       · rw [Ref.eval]
-        exact hB ls (e0 :: es0) (by simp) he isFn c gs r hc hfn Γ hls hg m s rs env pre post hrel hgen hctx hlf hlo hseg
+        exact hB ls self (e0 :: es0) (by simp) he isFn c gs r hc hfn Γ hls hg m s rs env pre post hrel hgen hctx hlf hlo hseg
       · intro hh; cases hh
   | cond arms d =>
     rw [Fx] at he
@@ -351,7 +352,7 @@ theorem xclaimE_succ {n : Nat} (hFE1 : FClaimE (n + 1)) (hFE : FClaimE n) (hL : 
     obtain ⟨_, totd⟩ := compile_tot_Fx he.2 hfn hg hls hd
     have tota := compileArms_tot_Fx he.1 hfn (hg.keep totd.1) hls has
     rw [Ref.eval]
-    exact hC ls arms d he.1 he.2 isFn c gs1 (as, gs2) gs (rd, gs1) has hd hfn Γ hls (hg.keep totd.1) hg m s rs env pre post hrel
+    exact hC ls self arms d he.1 he.2 isFn c gs1 (as, gs2) gs (rd, gs1) has hd hfn Γ hls (hg.keep totd.1) hg m s rs env pre post hrel
       (hgen.rest totd.1) (hgen.first tota.1) hctx hlf (hlf.first tota.1) (hlo.mono totd.2.1 (Nat.le_refl _))
       (hlo.mono (Nat.le_refl _) tota.2.1) (Nat.le_refl _) hseg
   | newScope es =>
@@ -365,7 +366,7 @@ theorem xclaimE_succ {n : Nat} (hFE1 : FClaimE (n + 1)) (hFE : FClaimE n) (hL : 
         obtain ⟨ra, gs1, ha, rfl⟩ := hc
         rw [Ref.eval]
         show SimX _ Γ m s rs env (Ref.evalBegin n (e0 :: es0) rs.frames.length (Ref.newFrame rs env).2)
-        exact SimX.scoped hseg hrel (hN ls (e0 :: es0) he.1 he.2 isFn _ _ gs (ra, gs1) ha hfn Γ hls hg m _ _ _ _ _
+        exact SimX.scoped hseg hrel (hN ls self (e0 :: es0) he.1 he.2 isFn _ _ gs (ra, gs1) ha hfn Γ hls hg m _ _ _ _ _
           hrel.pushScope (hgen.mono (FnsKeep.of_fns_eq rfl)) hctx.pushScope (hlf.nl (FrameNL.pushScope s))
           (hlo.app (lsOut_one .addScope _ _)) hseg.inner)
       · intro hh; cases hh
@@ -376,10 +377,10 @@ theorem xclaimE_succ {n : Nat} (hFE1 : FClaimE (n + 1)) (hFE : FClaimE n) (hL : 
     rw [compile] at hc
     simp only [g_bind_ok, g_pure_ok] at hc
     obtain ⟨ra, gs1, ha, rb, gs2, hb, rfl⟩ := hc
-    have hfnok' : FnameOk "" { c with scopes := c.scopes + 1, tail := false } := Or.inr (Or.inl hfn)
-    have hfn'' : ({ c with scopes := c.scopes + 1 } : Ctx).funcname = "" := hfn
+    have hfnok' : FnameOk self { c with scopes := c.scopes + 1, tail := false } := hfn
+    have hfn'' : FnameOk self { c with scopes := c.scopes + 1 } := hfn
     have hk1 := compileBinds_keep_Ff hbs ha hfnok'
-    have hl1 := compileBinds_ls_Ff true "" bs hbs isFn _ seq gs _ ha hfnok'
+    have hl1 := compileBinds_ls_Ff true self bs hbs isFn _ seq gs _ ha hfnok'
     have tot2 := compileBegin_tot_Fx hbody hbl hfn'' (hg.keep hk1.1) hls hb
     have hnl : FrameNL s s.pushScope := FrameNL.pushScope s
     cases seq
@@ -413,7 +414,7 @@ theorem xclaimE_succ {n : Nat} (hFE1 : FClaimE (n + 1)) (hFE : FClaimE n) (hL : 
           rw [h2] at hU
           obtain ⟨s2, m2, r2, mv2, rel2, hm2, ext2, fr2⟩ := hU
           simp only
-          have ihb := hB ls body hbody hbl isFn _ gs1 (rb, gs2) hb hfn'' Γ hls (hg.keep hk1.1) m2 s2 rs3 _ _ _ rel2
+          have ihb := hB ls self body hbody hbl isFn _ gs1 (rb, gs2) hb hfn'' Γ hls (hg.keep hk1.1) m2 s2 rs3 _ _ _ rel2
             (((hgen.rest hk1.1).mono (s' := s.pushScope) (FnsKeep.of_fns_eq rfl)).frame fr2.toFrame)
             (hctx.pushScope.moved mv2 fr2 ext2) ((hlf.nl hnl).frame fr2.toFrame)
             (((hlo.mono hl1.1 (Nat.le_refl _)).app (lsOut_one .addScope _ _)).app
@@ -440,14 +441,14 @@ theorem xclaimE_succ {n : Nat} (hFE1 : FClaimE (n + 1)) (hFE : FClaimE n) (hL : 
       rw [if_pos rfl]
       refine SimX.scoped hseg hrel ?_
       have hseg1 := hseg.inner
-      have hUl := hL true "" bs hbs isFn _ gs (ra, gs1) ha hfnok' m _ _ _ _ _ hrel.pushScope
+      have hUl := hL true self bs hbs isFn _ gs (ra, gs1) ha hfnok' m _ _ _ _ _ hrel.pushScope
         (fun _ => (hgen.first tot2.1).mono (FnsKeep.of_fns_eq rfl))
         (hseg1.refocus (c' := ra.1) (post' := rb.1 ++ ([.removeScope] ++ post)) (by simp))
       cases h1 : Ref.evalLetSeq n bs rs.frames.length (Ref.newFrame rs env).2 with
       | ok u rs2 =>
         rw [h1] at hUl
         obtain ⟨s2, m2, r2, mv2, rel2, hm2, ext2, fr2⟩ := hUl
-        have ihb := hB ls body hbody hbl isFn _ gs1 (rb, gs2) hb hfn'' Γ hls (hg.keep hk1.1) m2 s2 rs2 _ _ _ rel2
+        have ihb := hB ls self body hbody hbl isFn _ gs1 (rb, gs2) hb hfn'' Γ hls (hg.keep hk1.1) m2 s2 rs2 _ _ _ rel2
           (((hgen.rest hk1.1).mono (s' := s.pushScope) (FnsKeep.of_fns_eq rfl)).frame fr2.toFrame)
           (hctx.pushScope.moved mv2 fr2 ext2) ((hlf.nl hnl).frame fr2.toFrame)
           (((hlo.mono hl1.1 (Nat.le_refl _)).app (lsOut_one .addScope _ _)).app (hl1.2.below (Nat.le_refl _)))
@@ -482,116 +483,17 @@ theorem xclaimE_succ {n : Nat} (hFE1 : FClaimE (n + 1)) (hFE : FClaimE n) (hL : 
 
 theorem xclaims_zero : XClaimE 0 ∧ XClaimB 0 ∧ XClaimC 0 ∧ XClaimN 0 ∧ XClaimF 0 := by
   refine ⟨?_, ?_, ?_, ?_, ?_⟩
-  · intro ls e he isFn c gs r hc hfn Γ hls hg m s rs env pre post hrel hgen hctx hlf hlo hseg
+  · intro ls self e he isFn c gs r hc hfn Γ hls hg m s rs env pre post hrel hgen hctx hlf hlo hseg
     rw [Ref.eval]; trivial
-  · intro ls es hne hes isFn c gs r hc hfn Γ hls hg m s rs env pre post hrel hgen hctx hlf hlo hseg
+  · intro ls self es hne hes isFn c gs r hc hfn Γ hls hg m s rs env pre post hrel hgen hctx hlf hlo hseg
     rw [Ref.evalBegin]; trivial
-  · intro ls arms d harms hd isFn c gs r gs0 rd hc hcd hfn Γ hls hg hg0 m s rs env pre post hrel hgen hgend hctx hlf hlfd
+  · intro ls self arms d harms hd isFn c gs r gs0 rd hc hcd hfn Γ hls hg hg0 m s rs env pre post hrel hgen hgend hctx hlf hlfd
       hlo hlod hdl hseg
     rw [Ref.evalCond]; trivial
-  · intro ls es hne hes isFn c oldtail gs r hc hfn Γ hls hg m s rs env pre post hrel hgen hctx hlf hlo hseg
+  · intro ls self es hne hes isFn c oldtail gs r hc hfn Γ hls hg m s rs env pre post hrel hgen hctx hlf hlo hseg
     rw [Ref.evalBegin]; trivial
-  · intro ls label test incr body htest hincr hbody isFn c hfn gb rb g2 gt rt g4 gi ri g5 hcb hct hci Γ γ₀ hls hlab hg
+  · intro ls self label test incr body htest hincr hbody isFn c hfn gb rb g2 gt rt g4 gi ri g5 hcb hct hci Γ γ₀ hls hlab hg
       ci pre post m σ rs hin hpc hd hlin hrel hgen hctx hlf hlo hbrk hcont
     rw [Ref.loop]; trivial
-
-theorem xclaims : ∀ n, XClaimE n ∧ XClaimB n ∧ XClaimC n ∧ XClaimN n ∧ XClaimF n
-  | 0 => xclaims_zero
-  | n + 1 => by
-    obtain ⟨hE, hB, hC, hN, hF⟩ := xclaims n
-    obtain ⟨hFE, _, _, _, _, _, _, hL, hP, _, _⟩ := fclaims n
-    exact ⟨xclaimE_succ (fclaims (n + 1)).1 hFE hL hP hE hB hC hN hF, xclaimB_succ hE hB, xclaimC_succ hFE hE hC,
-      xclaimN_succ hE hN, xclaimF_succ hFE hB hF⟩
-
-/-- **Segment lemma for statement lists with `break`/`continue`** (inside the loops `Γ`). -/
-theorem segment_Fx_begin (ls : List (Option String)) (es : List Expr) (hne : es ≠ []) (he : FxList ls es = true)
-    (isFn : Nat → Bool) (c : Ctx) (hfn : c.funcname = "") (gs : GS) (r : (List Instr × Bool) × GS)
-    (hc : (compileBegin isFn c es).run gs = .ok r) (Γ : List LCtx) (hls : Γ.map (·.label) = ls) (hg : GsOk Γ gs)
-    (m : Nat → Nat) (s : St) (rs : Ref.St) (env : Nat)
-    (pre post : List Instr) (hrel : RelF m s rs env) (hgen : GenOk gs r.2 s) (hctx : CtxF Γ c.scopes s rs)
-    (hlf : LoopsFinal r.2 s) (hlo : LsOut pre gs.loops.length r.2.loops.length) (hseg : Seg s pre r.1.1 post)
-    (n : Nat) : SimX r.1.1 Γ m s rs env (Ref.evalBegin n es env rs) :=
-  (xclaims n).2.1 ls es hne he isFn c gs r hc hfn Γ hls hg m s rs env pre post hrel hgen hctx hlf hlo hseg
-
-/-! ## Program texts -/
-
-/-- the program texts of F2 with loops that `break`/`continue` -/
-def FxTop (p : List Expr) : Bool := FxList [] p
-
-/-- **A non-empty program text of F2 with `break`/`continue`, loaded and run** from a resting
-top-level state related to the reference state: `runText` reports what the reference evaluator yields. -/
-theorem runText_Fx (m : Nat → Nat) (s : St) (rs : Ref.St) (p : List Expr) (hne : p ≠ []) (hp : FxTop p = true)
-    (hs : AtRest s) (hlin : s.linear = [some 0]) (hstack : s.loopstack = [])
-    (hold : ∀ l, Instr.loopStart l ∈ (fnOf s mainFn).code → l < s.loops.length)
-    (hrel : RelF m s rs 0) (n : Nat) :
-    ∃ N, ∀ fuel, N ≤ fuel → TextOut (runText fuel p s) (Ref.evalBegin n p 0 { rs with trace := [] }) := by
-  have hg0 : GsOk [] { fns := s.fns, loops := s.loops, loopstack := s.loopstack, live := s.linear } :=
-    ⟨by simp [hstack], fun _ h => by cases h⟩
-  obtain ⟨code, t, gs', hc, -, hk, hls⟩ := compileBegin_total_Fx [] p hne hp (isFnScope (clearTrace s)) {}
-    { fns := s.fns, loops := s.loops, loopstack := s.loopstack, live := s.linear } [] rfl hg0 rfl
-  have hload : (runGen (compileBegin (isFnScope (clearTrace s)) {} p)).run (clearTrace s)
-      = (.ok (code, t), withGen (clearTrace s) gs') := run_runGen_gen _ (clearTrace s) _ gs' hc
-  -- the loaded state
-  have hsz : curSize (clearTrace s) = ((fnOf s mainFn).code.length : Int) := by
-    show (if (fnOf s s.curfunc).user then (0 : Int) else ((fnOf s s.curfunc).code.length : Int)) = _
-    rw [hs.cur, hs.user]; rfl
-  have hpre : (if (clearTrace s).pc ≥ curSize (clearTrace s) then ([] : List Instr) else [.pop]) = [] :=
-    if_pos (by rw [hsz]; show s.pc ≥ _; rw [hs.pc]; exact Int.le_refl _)
-  have hmain' : gs'.fns.getD mainFn {} = fnOf s mainFn := hk.fns mainFn hs.main
-  have hmlt : mainFn < gs'.fns.length := Nat.lt_of_lt_of_le hs.main hk.len
-  have hfmain : fnOf (loadedF s gs' code) mainFn = { fnOf s mainFn with code := (fnOf s mainFn).code ++ code } := by
-    rw [fnOf_loadedF, hpre, hmain']
-    simp only [List.getElem?_set_self hmlt, Option.getD_some, List.append_nil]
-  have hfother : ∀ id, id ≠ mainFn → fnOf (loadedF s gs' code) id = gs'.fns.getD id {} := fun id hid => by
-    rw [fnOf_loadedF, List.getElem?_set_ne (fun e => hid e.symm), List.getD_eq_getElem?_getD]
-  have hseg : Seg (loadedF s gs' code) (fnOf s mainFn).code code [] :=
-    ⟨by show (fnOf (loadedF s gs' code) mainFn).user = false; rw [hfmain]; exact hs.user,
-     by show (fnOf (loadedF s gs' code) mainFn).code = _; rw [hfmain]; simp, hs.pc⟩
-  have hlenL : (loadedF s gs' code).fns.length = gs'.fns.length := by
-    show (List.set gs'.fns mainFn _).length = _; simp
-  have hkeep : FnsKeep s (loadedF s gs' code) :=
-    ⟨by rw [hlenL]; exact hk.len, fun id hid hne' => by rw [hfother id hne']; exact hk.fns id hid,
-     by rw [hfmain], by rw [hfmain]⟩
-  have hrelL : RelF m (loadedF s gs' code) { rs with trace := [] } 0 :=
-    hrel.load rfl rfl hs.cur.symm rfl rfl hkeep
-  have hgen : GenOk { fns := s.fns, loops := s.loops, loopstack := s.loopstack, live := s.linear } gs' (loadedF s gs' code) :=
-    ⟨hlin, hs.main, by rw [hlenL]; exact Nat.le_refl _,
-     fun t' h1 _ => hfother t' (by have := hs.main; simp only at h1; omega)⟩
-  have hloops : (loadedF s gs' code).loops = gs'.loops := rfl
-  have hsim := segment_Fx_begin [] p hne hp _ {} rfl _ ((code, t), gs') hc [] rfl hg0 m (loadedF s gs' code)
-    { rs with trace := [] } 0 (fnOf s mainFn).code [] hrelL hgen (fun _ h => by cases h)
-    ⟨by rw [hloops]; exact Nat.le_refl _, fun id _ _ => by rw [hloops]⟩
-    (fun l hl => Or.inl (hold l hl)) hseg n
-  cases hres : Ref.evalBegin n p 0 { rs with trace := [] } with
-  | ok v' rs' =>
-    rw [hres] at hsim
-    obtain ⟨s1, m1, v, r, l, hv, rel1, -, -, -, -⟩ := hsim
-    obtain ⟨N, hN⟩ := run_of_landsE hseg r l
-    refine ⟨N, fun fuel hf => ?_⟩
-    refine ⟨s1.jmp s1.pc (loadedF s gs' code).data, depths (s1.jmp s1.pc (loadedF s gs' code).data), ?_⟩
-    have e : loadState (clearTrace s) (withGen (clearTrace s) gs') code = loadedF s gs' code := rfl
-    rw [runText_eq]
-    simp only [hload, e, hN fuel hf]
-    have hpr : pr (s1.jmp s1.pc (loadedF s gs' code).data).heap v = pr rs'.heap v' := by
-      rw [hv, rel1.heap]; exact (pr_tr m1 id id s1.heap v).symm
-    rw [hpr, show (s1.jmp s1.pc (loadedF s gs' code).data).trace = rs'.trace from rel1.trace]
-  | err rs' =>
-    rw [hres] at hsim
-    obtain ⟨N, hN⟩ := run_of_failsE hsim
-    refine ⟨N, fun fuel hf => ?_⟩
-    obtain ⟨sf, hrun, htr⟩ := hN fuel hf
-    refine ⟨sf, depths sf, ?_⟩
-    have e : loadState (clearTrace s) (withGen (clearTrace s) gs') code = loadedF s gs' code := rfl
-    rw [runText_eq]
-    simp only [hload, e, hrun, htr]
-  | timeout => exact ⟨0, fun _ _ => trivial⟩
-  | brk l rs' =>
-    rw [hres] at hsim
-    obtain ⟨γ, hγ, _⟩ := hsim
-    cases l <;> simp [findCtx] at hγ
-  | cont l rs' =>
-    rw [hres] at hsim
-    obtain ⟨γ, hγ, _⟩ := hsim
-    cases l <;> simp [findCtx] at hγ
 
 end ZygoVerif.Sim
